@@ -56,7 +56,8 @@ RULE = ("cases: (a) real SynchronousHyperbandScheduler / SynchronousGeometricHyp
         "(1-4 rungs, 1-4 offsets, base rung <= 9), modes min/max, 1-6 scripted workers, reports in random order across open brackets "
         "(random linear extension), failure subsets, searcher without configuration, NaN metrics, late reports, with/without "
         "max_resource_attr and checkpointing; (b) the real bracket managers (synchronous and DEHB) driven directly incl. illegal calls; "
-        "(c) thorough: every result order and failure subset for tiny systems; distinct by sha256 of the spec; "
+        "(c) thorough: every result order and failure subset for tiny systems; (d) monitor only: ±inf metric values (the top list of a "
+        "completed rung is judged by what the workers reported), real DEHB runs; distinct by sha256 of the spec; "
         "non-trivial iff at least one rung was completed")
 
 
